@@ -330,7 +330,12 @@ class FSM(addons.AddonPersistence, block.SBlock):
         """Start the timer (low-level)."""
         self.log_debug("timer: %.3fs before %s", duration, timed_event)
         self._active_timer = asyncio.get_running_loop().call_later(
-            duration, self.event, timed_event)
+            duration, self._timer_expired, timed_event)
+
+    def _timer_expired(self, timed_event: str|block.EventType) -> None:
+        """The timer callback. A timer that went off is not active any more."""
+        self._active_timer = None
+        self.event(timed_event)
 
     def _start_timer(
             self, duration: Optional[float|str], timed_event: str|block.EventType) -> None:
